@@ -50,9 +50,13 @@ Definition h_finalmsg (args : list bytes) : bytes :=
   let s := new_spend parent amount ph (sha256 (parent ++ ph ++ coin_amount_bytes amount)) 0 in
   hexo (msg ++ agg_sig_suffix K op s).
 
+(* cond.coinid PARENT PH AMOUNT : Coin::coin_id through the translated ladder *)
+Definition h_coinid (args : list bytes) : bytes :=
+  to_hex (sha256 (hx (arg 0 args) ++ hx (arg 1 args) ++ coin_amount_bytes (dec (arg 2 args)))).
+
 Definition cond_handlers : list (bytes * handler) :=
   [ (str "cond.parse", h_parse); (str "cond.ucost", h_ucost); (str "cond.opcode", h_opcode);
-    (str "cond.finalmsg", h_finalmsg) ].
+    (str "cond.finalmsg", h_finalmsg); (str "cond.coinid", h_coinid) ].
 
 Definition dispatch_n (line : list N) : list N :=
   map b2n (dispatch_table cond_handlers (map n2b line)).
